@@ -173,6 +173,57 @@ def couplers(T):
                 if not np.array_equal(np.asarray(got), np.asarray(want)):
                     T.violate({'clause': 'coupler', 'coupler': name}, {'coupler': name, 'f': fi, 'c': ci, 'x': x},
                               '%s(c%d)(f%d)(%r) = %r, documented value %r' % (name, ci, fi, x.tolist(), got, want))
+    # histories: a coupled function is a value.  (i) called twice it answers twice the same, with an f that returns a
+    # stored array or its own input (a mutable result that outlives the call), and leaves its argument alone;
+    # (ii) one coupler object used to decorate two functions keeps them apart, whichever is called first
+    stored = np.array([1.0, -2.0])
+    def f_stored(x): return stored                 # the same array object on every call
+    def f_input(x): return x                       # hands its input back
+    def f_fresh(x): return x * 2.0
+    def p_vec(x): return np.abs(x) + 0.5
+    def p_sc(x): return float(np.sum(np.abs(x))) + 0.25
+    for fname, f in (('stored', f_stored), ('input', f_input), ('fresh', f_fresh)):
+        for pname, pen in (('vector', p_vec), ('scalar', p_sc)):
+            for cname, build, expect in (('additive', cp.additive, lambda x: f(x) + pen(x)),
+                                         ('inner', cp.inner, lambda x: f(pen(x)) if pname == 'vector' else None),
+                                         ('outer', cp.outer, lambda x: pen(f(x)))):
+                for x0 in grid[:6]:
+                    if cname == 'inner' and pname == 'scalar':
+                        continue
+                    stored[:] = [1.0, -2.0]
+                    x = np.array(x0, dtype=float)
+                    want = np.array(expect(np.array(x0, dtype=float)), dtype=float, copy=True)
+                    stored[:] = [1.0, -2.0]
+                    g = build(pen)(f)
+                    T.count('traces'); T.count('transitions', 3); T.nontriv(('cph', fname, pname, cname, tuple(x0)))
+                    got1 = np.array(g(x), dtype=float, copy=True)
+                    x_after = x.copy()
+                    got2 = np.array(g(np.array(x0, dtype=float)), dtype=float, copy=True)
+                    sig = {'clause': 'coupler_history', 'coupler': cname, 'f_returns': fname, 'penalty': pname}
+                    case = {'coupler': cname, 'history': True, 'f': fname, 'p': pname, 'x': list(x0)}
+                    if not np.array_equal(got1, want):
+                        T.violate(dict(sig, what='first_call'), case, '%s(p_%s)(f_%s)(%r) = %r, documented value %r' % (cname, pname, fname, list(x0), got1.tolist(), want.tolist()))
+                    elif not np.array_equal(got2, want):
+                        T.violate(dict(sig, what='second_call'), case, '%s(p_%s)(f_%s)(%r): first call %r, the same call again %r'
+                                  % (cname, pname, fname, list(x0), got1.tolist(), got2.tolist()))
+                    if fname != 'input' and not np.array_equal(x_after, np.array(x0, dtype=float)):
+                        T.violate(dict(sig, what='argument_changed'), case, '%s(p_%s)(f_%s) changed its argument %r to %r'
+                                  % (cname, pname, fname, list(x0), x_after.tolist()))
+    for cname, build in (('inner', cp.inner), ('outer', cp.outer), ('additive', cp.additive)):
+        for ci, c in enumerate(cs):
+            for order in ('first_then_second', 'second_then_first'):
+                d = build(c)
+                g1, g2 = d(fs[0]), d(fs[1])
+                for x in grid[:6]:
+                    T.count('traces'); T.count('transitions', 2); T.nontriv(('cpd', cname, ci, order, tuple(x)))
+                    want1 = {'inner': fs[0](c(x)), 'outer': c(fs[0](x)), 'additive': fs[0](x) + c(x)}[cname]
+                    want2 = {'inner': fs[1](c(x)), 'outer': c(fs[1](x)), 'additive': fs[1](x) + c(x)}[cname]
+                    r = [g1(x), g2(x)] if order == 'first_then_second' else [g2(x), g1(x)][::-1]
+                    if not (np.array_equal(np.asarray(r[0]), np.asarray(want1)) and np.array_equal(np.asarray(r[1]), np.asarray(want2))):
+                        T.violate({'clause': 'coupler_history', 'coupler': cname, 'what': 'one_coupler_object_two_functions'},
+                                  {'coupler': cname, 'history': True, 'c': ci, 'x': x},
+                                  'd = %s(c%d); g1 = d(f0); g2 = d(f1): g1(%r) = %r (documented %r), g2 = %r (documented %r)'
+                                  % (cname, ci, x.tolist(), r[0], want1, r[1], want2))
     # args / kwds routing
     def c2(x, a, b=0): return x * a + b
     def f2(x, p, q=0): return x - p + 10 * q
